@@ -156,6 +156,19 @@ def mentions(v, site):
 
 def decided(sl, cond, subj):
     """True / False when the variant test `cond` is settled by the (normalised) subject, None otherwise"""
+    if cond.kind == 'bool' and isinstance(cond.outcome, bool) and isinstance(subj, tuple) and subj:
+        # a helper's boolean answer (`if !normalise(..)? { return Ok(None) }`): settled by the literal the helper's outcome returns
+        v = subj
+        for _ in range(4):
+            if v[0] == 'unwrap' and len(v) == 2 and isinstance(v[1], tuple):
+                x = v[1]
+                if x[0] == 'agg' and len(x) == 4 and x[2] in ('Ok', 'Some') and len(x[3]) == 1:
+                    v = x[3][0][1]
+                    continue
+            break
+        if v[0] == 'const' and isinstance(v[1], bool):
+            return v[1] == cond.outcome
+        return None
     if cond.kind != 'variant' or not isinstance(cond.outcome, frozenset) or subj is None:
         return None
     v = subj
@@ -515,6 +528,68 @@ def outcomes2(E, fn, through, mapping=None, chain=(), stack=(), frame=(), entry=
                 continue
             res.append(Outcome2(prog, entry, norm(sl, pv) if table else pv, must, may, all_conds, (site,) + hsites))
     return res
+
+
+# ---- nested in-place updates of a carrier -------------------------------------------------------------------------------
+_NESTED_DOC = """`x.types = t; write(&x)` and `c.content.types = t; write(&c.content)` (c a private carrier struct holding the value read
+next to its path) write the same value.  The value slicer records the assignment on the *carrier* (`updated(c, .content.types)`)
+and its field projection keeps an update only when it names the projected field itself, so the argument `&c.content` reads as
+the bare `c.content`.  `repair_nested_updates` restores, on the facts, what the projection dropped: for every call on the way
+to an effect whose argument is (a reference to) a field path `local.f1..fk`, the assignments to `local.f1..fk.rest` that
+dominate the call are re-attached as `updated(<argument value>, rest)` — only ever *adding* recorded assignments, so the
+frame check sees them like any other update."""
+
+
+def _underlying_place(fn, op, depth=0):
+    pl = _op_place(op) if isinstance(op, dict) else op
+    if not pl or depth > 6:
+        return None
+    if len(pl) > 1:
+        return pl if all(isinstance(x, str) and x.startswith('.') for x in pl[1:]) else None
+    defs = fn.whole_defs(pl[0])
+    if len(defs) != 1 or defs[0][0] != 'stmt':
+        return None
+    rv = defs[0][3]
+    if rv['r'] == 'ref':
+        p = rv['p']
+        if len(p) == 2 and p[1] == '*':
+            return _underlying_place(fn, [p[0]], depth + 1)
+        return _underlying_place(fn, p, depth + 1) if len(p) == 1 else (p if all(isinstance(x, str) and x.startswith('.') for x in p[1:]) else None)
+    if rv['r'] == 'use':
+        q = _op_place(rv['o'])
+        return _underlying_place(fn, q, depth + 1) if q else None
+    return None
+
+
+def repair_nested_updates(E, e, data):
+    sl = E.slicer
+    steps = [(l.call, l.mapping) for l in e.chain if isinstance(l, Link)]
+    if e.call is not None:
+        steps.append((e.call, e.mapping))
+    for c, mapping in steps:
+        f = c.fn
+        for a in c.args:
+            pl = _underlying_place(f, a)
+            if not pl or len(pl) < 2:
+                continue
+            ups = []
+            for dd in f.partial_defs(pl[0]):
+                kind, bi, si, rv, dpl = dd
+                if kind != 'stmt':
+                    continue
+                dp = [x for x in dpl if x != '*']
+                if len(dp) > len(pl) and dp[:len(pl)] == list(pl) and (bi == c.bb or f.dominates(bi, c.bb)):
+                    # (a statement of the call's own block precedes the call, its terminator)
+                    ups.append((''.join(dp[len(pl):]), sl._rvalue(f, rv, set(), 0, (bi, si))))
+            if not ups:
+                continue
+            v = sl.operand(f, a)
+            if any(x[0] == 'updated' for x in walk(v) if isinstance(x, tuple) and x):
+                continue        # the slicer kept (some of) the updates: leave its reading alone
+            sv = E.subst(v, mapping or {})
+            sv2 = E.subst(('updated', v, tuple(ups)), mapping or {})
+            data = _replace_node(data, lambda x: x == sv, sv2)[0]
+    return data
 
 
 # ---- frame of a serialised struct ---------------------------------------------------------------------------------------
@@ -907,6 +982,45 @@ def _some(x):
     return ('agg', 'std::option::Option', 'Some', (('0', x),))
 
 
+_OPEN_MODE_DOC = """`OpenOptions::new().write(true).create(true).truncate(true).open(p)` is how std defines `File::create(p)`,
+`..write(true).create_new(true).open(p)` is `File::create_new(p)` and `..read(true).open(p)` is `File::open(p)`.  The library
+knows `OpenOptions::open` only as an opaque OPEN; `open_mode` reads the builder chain (constant flags on `OpenOptions::new()` /
+`File::options()`, the last setting of a flag wins) and names the std constructor it equals — anything else (append, a
+write-open that keeps the old contents, a flag that is not a constant) stays an opaque OPEN."""
+OO_FLAGS = ('read', 'write', 'append', 'truncate', 'create', 'create_new')
+OO_NEW = ('std::fs::OpenOptions::new', 'std::fs::File::options')
+
+
+def open_mode(builder):
+    flags = {}
+    v = builder
+    for _ in range(16):
+        while isinstance(v, tuple) and v and v[0] in ('unwrap', 'updated') and len(v) >= 2 and isinstance(v[1], tuple):
+            v = v[1]
+        if not (isinstance(v, tuple) and len(v) == 4 and v[0] == 'call'):
+            return None
+        if v[1] in OO_NEW and not v[2]:
+            break
+        name = v[1].rsplit('::', 1)
+        if len(name) != 2 or name[0] != 'std::fs::OpenOptions' or name[1] not in OO_FLAGS or len(v[2]) != 2:
+            return None
+        val = v[2][1]
+        if not (isinstance(val, tuple) and len(val) == 2 and val[0] == 'const' and isinstance(val[1], bool)):
+            return None
+        flags.setdefault(name[1], val[1])
+        v = v[2][0]
+    else:
+        return None
+    on = {k for k, b in flags.items() if b}
+    if on == {'read'}:
+        return 'read'
+    if on == {'write', 'create', 'truncate'}:
+        return 'create'
+    if 'create_new' in on and 'write' in on and 'append' not in on and 'read' not in on:
+        return 'create_new'
+    return None
+
+
 class Effects2(Effects):
     """Effects whose MUST summaries also know what a drained work-list implies, and which are taken per case of the branch
     that decides whether something is pushed (`if let Some(x) = open(dir)? { stack.push((dir, x)) }`: the None case has the
@@ -946,6 +1060,24 @@ class Effects2(Effects):
                 if best is None or len(L.body) < len(best.body):
                     best = L
         return best
+
+    # -- OpenOptions spellings of File::create / File::create_new / File::open (see open_mode) --------------------------
+    def _expand_call1(self, fn, c, forall, mode, mapping, chain, stack, out):
+        if not c.indirect and c.is_('std::fs::OpenOptions::open') and len(c.args) == 2:
+            om = open_mode(self.slicer.operand(fn, c.args[0]))
+            if om is not None:
+                pth = self.subst(self.slicer.operand(fn, c.args[1]), mapping)
+                args = (pth,)
+                if om in ('create', 'create_new'):
+                    data = self._written_to(fn, c)
+                    if data is not None:
+                        args = args + (self.subst(data, mapping),)
+                fa = self.subst(forall, mapping) if forall is not None else None
+                ef = Eff('READ' if om == 'read' else 'WRITE', pth, c, chain, mode == 'must', fa, args)
+                ef.mapping = mapping
+                out.append(ef)
+                return
+        Effects._expand_call1(self, fn, c, forall, mode, mapping, chain, stack, out)
 
     def _expand_call(self, fn, c, forall, mode, mapping, chain, stack, out):
         if forall is not None:
@@ -1419,19 +1551,88 @@ def reader_contexts(prog, sl, entry, reader):
     return out
 
 
+_READER_DOC = """The layer reader is a *function with outcomes*, not one function body: `read_layer` may be a thin (generic)
+shell over a private non-generic helper that does the stat / normalise / read part and hands on `Option<(path, text)>`, with
+the shell's `let Some(..) = helper(..)? else { return Ok(None) }` and `parse(..).map(|m| Some(..))` around it.  Its
+obligations are therefore stated on the leaf success outcomes of the reader split on every private helper of its own module
+that the returned value or a dominating test depends on (outcomes2 — the split the decision table uses): an outcome is
+None / Some by its value in normal form, its conditions are those of every frame on the way (each read in the terms of the
+calling context through the frame's parameter mapping) and its MUST effects are those of the helper's *matching* outcome,
+not the intersection over all of the helper's outcomes."""
+
+
+def frame_mapping(E, m, frame):
+    """parameter bindings of the function at the end of `frame`, in the terms of the context `m` of the frame's root"""
+    for caller, bb, callee in frame:
+        f, g = E.prog.fns.get(caller), E.prog.fns.get(callee)
+        c = f.call_at(bb) if f is not None else None
+        if c is None or g is None:
+            return None
+        m = E.call_mapping(f, c, g, m or {})
+    return m
+
+
+def chain_ok_sites(prog, e, site_map):
+    """chain_ok with the success sites of *every* function of the outcome known: a step in function f only has to be
+    propagated on the way to f's site of this outcome"""
+    steps = [l.call for l in e.chain if isinstance(l, Link)] + [e.call]
+    for c in steps:
+        if c is None:
+            return False
+        if not (c.dty or '').startswith(('std::result::Result<', 'std::option::Option<')):
+            continue
+        if not _ok_on_success(prog, c.fn, c, site_map.get(c.fn.path)):
+            return False
+    return True
+
+
+def _transposed_kind(v):
+    v = _peel(v)
+    if isinstance(v, tuple) and len(v) == 4 and v[0] == 'call' and v[1].startswith('std::option::Option') and v[1].endswith('::transpose') \
+            and len(v[2]) == 1:
+        a = _peel(v[2][0])
+        if isinstance(a, tuple) and len(a) == 4 and a[0] == 'agg' and a[1] == 'std::option::Option':
+            return a[2]
+    return None
+
+
 def reader_report(prog, sl, E, reader, m, LP):
     """[(subject, status 'holds'|'violated'|'unproven', where, message)] for one calling context of the reader"""
     res = []
     where = '%s:%d' % (reader.file, reader.line)
     n_none = n_some = 0
-    for st in E.sites(reader):
-        v = E._site_value(reader, st, m)
+
+    def through(g):
+        # any function of the reader's crate the value / a dominating test of an outcome depends on (outcomes2 splits on
+        # nothing else): the helper may live in the reader's module, nested in the reader, or in a shared util module
+        return g.crate == reader.crate and g.kind != 'Closure' and g.path != reader.path
+
+    def unsplit(vals):
+        """names of workspace functions still deciding an outcome after the split (recursive, too deep, several callees)"""
+        names = []
+        for v in vals:
+            for x in walk(v):
+                if isinstance(x, tuple) and len(x) == 4 and x[0] == 'call' and x[1] in prog.fns and prog.fns[x[1]].kind != 'Closure' \
+                        and x[1] not in names:
+                    names.append(x[1])
+        return names
+    try:
+        outs = outcomes2(E, reader, through, m)
+    except RecursionError:
+        outs = None
+    if outs is None:
+        return [('site-shape', 'unproven', where, 'the success outcomes of the layer reader could not be enumerated')]
+    for o in outs:
+        v = o.value
         kind = option_kind(norm(sl, v)) if v is not None else None
         if kind is None and v is not None:
             # `Ok(Some(x))` written as the last combinator of a chain (`parse(..).map_err(E).map(|m| Some(..))`): the site
             # succeeds exactly when the chain is Ok, and then returns its success payload
             kind = option_kind(norm(sl, ('unwrap', v)))
-        tag = 'bb%d' % st.bb
+        if kind is None and v is not None:
+            # `opt.map(|x| parse(x).map(..)).transpose()`: Ok(None) for None, and for Some(r) Ok(Some(..)) exactly when r is Ok
+            kind = _transposed_kind(norm(sl, v))
+        tag = '/'.join('bb%d' % st.bb for st in o.sites)
         if kind is None:
             res.append(('site-shape', 'unproven', where, 'success site %s of the layer reader returns a value that is neither None nor Some(..): %s'
                         % (tag, vstr(v)[:120] if v is not None else 'tail call')))
@@ -1439,16 +1640,19 @@ def reader_report(prog, sl, E, reader, m, LP):
         if kind == 'None':
             n_none += 1
             ok, seen_dir = False, False
-            for cd in _conditions(reader, st.bb, sl):
+            for cd, _subj, fr in o.conds:
                 if cd.kind != 'bool':
+                    continue
+                fm = frame_mapping(E, m, fr)
+                if fm is None:
                     continue
                 for val, oc in cd.views():
                     pv = existence_test(val)
                     if pv is None:
-                        if any(LP.classify(E.subst(x, m)) == ('DIR',) for x in walk(val) if isinstance(x, tuple) and x and x[0] == 'call'):
+                        if any(LP.classify(E.subst(x, fm)) == ('DIR',) for x in walk(val) if isinstance(x, tuple) and x and x[0] == 'call'):
                             seen_dir = True
                         continue
-                    if LP.classify(E.subst(pv, m)) == ('DIR',):
+                    if LP.classify(E.subst(pv, fm)) == ('DIR',):
                         seen_dir = True
                         if oc is False:
                             ok = True
@@ -1456,18 +1660,27 @@ def reader_report(prog, sl, E, reader, m, LP):
                 res.append(('none-gate', 'holds', where, '"no layer" is reported only when the layer directory does not exist'))
             elif seen_dir:
                 res.append(('none-gate', 'unproven', where, '"no layer" (%s) depends on a test of the layer directory that is not a plain negative existence test' % tag))
+            elif unsplit([sj for _c, sj, _f in o.conds]):
+                res.append(('none-gate', 'unproven', where, '"no layer" (%s) is decided by %s, whose outcomes could not be read into the reader\'s: no negative '
+                            'existence test of the layer directory was recognised on the way' % (tag, ', '.join(n.rsplit('::', 1)[-1] for n in unsplit([sj for _c, sj, _f in o.conds])[:3]))))
             else:
                 res.append(('none-gate', 'violated', where, '"no layer" is reported (%s) on a path where the layer directory may exist: its contents would survive in a layer reported as newly created' % tag))
             continue
         n_some += 1
-        effs = E.expand(reader, 'must', [st.bb], m)
-        hits = [e for e in effs if e.kind in ('READ', 'WRITE') and e.path is not None and LP.classify_effect(e) == ('TOML',)]
-        good = [e for e in hits if chain_ok(prog, e, reader, {st.bb})]
+        site_map = {}
+        for st in o.sites:
+            site_map.setdefault(st.fn.path, set()).add(st.bb)
+        hits = [e for e in o.must if e.kind in ('READ', 'WRITE') and e.path is not None and LP.classify_effect(e) == ('TOML',)]
+        good = [e for e in hits if chain_ok_sites(prog, e, site_map)]
         if good:
             res.append(('toml-exists', 'holds', where, 'a layer is reported present only after its content metadata file was %s'
                         % ('read successfully' if good[0].kind == 'READ' else 'written')))
         elif hits:
             res.append(('toml-exists', 'unproven', where, 'the content metadata file is read/written on the way to reporting a layer (%s), but a failure of that operation can end in success' % tag))
+        elif unsplit([sj for cd, sj, _f in o.conds if cd.kind == 'variant']):
+            hs = unsplit([sj for cd, sj, _f in o.conds if cd.kind == 'variant'])
+            res.append(('toml-exists', 'unproven', where, 'a layer is reported present (%s) depending on %s, whose outcomes could not be read into the reader\'s: no '
+                        'successful read / write of the content metadata file was recognised on the way' % (tag, ', '.join(n.rsplit('::', 1)[-1] for n in hs[:3]))))
         else:
             res.append(('toml-exists', 'violated', where, 'a layer is reported present (%s) on a path where its content metadata file was neither read successfully nor written: '
                         'a layer directory without TOML is not normalised and the keep / metadata writers fail on it' % tag))
@@ -1609,20 +1822,303 @@ def _outer_site_call(prog, v):
     return None
 
 
+_READ_BUFFER_DOC = """`fs::read_to_string(P)?` and
+
+        let mut buf = String::new();  File::open(P)?.read_to_string(&mut buf)?;
+
+leave the same text in hand (std defines the former as the latter).  The value slicer follows the second spelling only when
+the `&mut buf` is handed to the read directly; rustc usually reborrows it (`&mut *(&mut buf)`), and then the buffer reads as
+the empty `String::new()` it was created as.  `read_buffers` recognises the idiom on the facts:
+
+  * the buffer is a local with one whole definition, a call of an empty constructor (String::new / Vec::new / with_capacity);
+  * every `&mut` borrow of it (followed through reborrows and moves of the reference) ends as the buffer argument of one and
+    the same call of `Read::read_to_string` / `read_to_end`, which is not inside a loop — nothing else can write to it;
+  * the receiver of that call is `File::open(P)?` and nothing else, and the read's own Result is propagated on the way to
+    every success (`?`): a success of the function implies the whole file was read;
+  * every shared borrow / use of the buffer is dominated by the read.
+
+and `inline_deep_rb` is `sl.inline_deep` with the creating call of such a buffer replaced by `unwrap(fs::read_to_string(P))`
+in the callee's own terms before its parameters are bound."""
+BUF_CTORS = ('std::string::String::new', 'std::string::String::with_capacity', 'std::vec::Vec::<T>::new',
+             'std::vec::Vec::<T>::with_capacity')
+BUF_READERS = {'std::io::Read::read_to_string': 'std::fs::read_to_string', 'std::io::Read::read_to_end': 'std::fs::read'}
+FILE_OPEN = ('std::fs::File::open',)
+BUF_WRAPPERS = {'std::io::BufReader::<R>::new': 0, 'std::io::BufReader::<R>::with_capacity': 1}
+# `String::from_utf8(fs::read(P)?)?` is the text of P like `fs::read_to_string(P)?` (invalid UTF-8 is an error in both)
+UTF8_DECODE = ('std::string::String::from_utf8', 'std::str::from_utf8', 'core::str::from_utf8', 'std::str::converts::from_utf8')
+FILE_READ_BYTES = ('std::fs::read',)
+
+
+def text_of_file(src):
+    """path P when `src` is, in normal form, the whole text of file P"""
+    src = _peel_unwrap(src)
+    if not (isinstance(src, tuple) and len(src) == 4 and src[0] == 'call' and len(src[2]) == 1):
+        return None
+    if src[1] in FILE_READ_TEXT:
+        return src[2][0]
+    if src[1] == 'std::io::read_to_string':
+        # `io::read_to_string(File::open(P)?)` (optionally through a BufReader): the whole text of P
+        r = _peel_unwrap(src[2][0])
+        for _ in range(3):
+            if isinstance(r, tuple) and len(r) == 4 and r[0] == 'call' and r[1] in BUF_WRAPPERS and r[2]:
+                r = _peel_unwrap(r[2][BUF_WRAPPERS[r[1]]])
+        if isinstance(r, tuple) and len(r) == 4 and r[0] == 'call':
+            if r[1] in FILE_OPEN and len(r[2]) == 1:
+                return r[2][0]
+            if r[1] == 'std::fs::OpenOptions::open' and len(r[2]) == 2 and open_mode(r[2][0]) == 'read':
+                return r[2][1]
+        return None
+    if src[1] in UTF8_DECODE:
+        b = _peel_unwrap(src[2][0])
+        if isinstance(b, tuple) and len(b) == 4 and b[0] == 'call' and b[1] in FILE_READ_BYTES and len(b[2]) == 1:
+            return b[2][0]
+    return None
+
+
+def toml_read_hint(prog, sl, base, classify):
+    """the std call that opens / reads this layer's TOML somewhere inside `base` (helpers inlined), or None: the value does
+    come from the file, through a reading mechanism toml_source does not reduce to `parse(text of P)`"""
+    try:
+        v = inline_deep_rb(prog, sl, base)
+    except RecursionError:
+        return None
+    for x in walk(v):
+        if isinstance(x, tuple) and len(x) == 4 and x[0] == 'call' and x[1] in _VOCAB and _VOCAB[x[1]][0] in ('READ', 'OPEN'):
+            i = _VOCAB[x[1]][1]
+            if i is not None and i < len(x[2]) and classify(x[2][i]) == ('TOML',):
+                return x[1]
+    return None
+
+
+def read_buffers(prog, sl, g):
+    key = ('readbuf2', g.path)
+    cache = _cache(sl)
+    if key in cache:
+        return cache[key]
+    out = {}
+    cache[key] = out
+    reads = [c for c in g.calls if not c.indirect and c.decl in BUF_READERS and len(c.args) == 2]
+    if not reads:
+        return out
+    # reference locals: ref -> (root local, mutable?) through `&mut x`, `&mut *r`, `move r`
+    src = {}
+    for b in g.blocks:
+        for st in b['s']:
+            if st[0] != '=' or len(st[1]) != 1:
+                continue
+            rv = st[2]
+            if rv['r'] == 'ref':
+                pl = rv['p']
+                if len(pl) == 1:
+                    src[st[1][0]] = ('ref', pl[0], bool(rv.get('mut')))
+                elif len(pl) == 2 and pl[1] == '*':
+                    src[st[1][0]] = ('reborrow', pl[0], bool(rv.get('mut')))
+            elif rv['r'] == 'use':
+                pl = _op_place(rv['o'])
+                if pl and len(pl) == 1:
+                    src[st[1][0]] = ('move', pl[0], None)
+
+    def root(l, depth=0):
+        """(buffer local, via a mutable borrow?) the reference local l points to"""
+        x = src.get(l)
+        if x is None or depth > 6:
+            return None
+        if x[0] == 'ref':
+            return x[1], x[2]
+        r = root(x[1], depth + 1)
+        if r is None:
+            return None
+        return (r[0], r[1] and x[2]) if x[0] == 'reborrow' else r
+    for c in reads:
+        pl = _op_place(c.args[1])
+        r = root(pl[0]) if pl and len(pl) == 1 else None
+        if r is None or not r[1]:
+            continue
+        buf = r[0]
+        defs = g.whole_defs(buf)
+        if len(defs) != 1 or defs[0][0] != 'call' or g.partial_defs(buf):
+            continue
+        ctor = defs[0][3]
+        if ctor.indirect or ctor.name not in BUF_CTORS or g.in_loop(c.bb) or g.in_loop(ctor.bb):
+            continue
+        # every mutable borrow of the buffer leads to this read and to nothing else
+        muts = [l for l, x in src.items() if x[0] == 'ref' and x[1] == buf and x[2]]
+        users = [c2 for c2 in g.calls for a in c2.args
+                 if (_op_place(a) or [None])[0] is not None and (root((_op_place(a))[0]) or (None, False)) == (buf, True)]
+        if len(muts) != 1 or [id(u) for u in users] != [id(c)]:
+            continue
+        # moved / copied out of the buffer before the read? every other use must come after the read
+        uses_ok = True
+        for bi, b in enumerate(g.blocks):
+            for st in b['s']:
+                if st[0] != '=':
+                    continue
+                rv = st[2]
+                touches = (rv['r'] == 'ref' and rv['p'][0] == buf and not rv.get('mut')) or \
+                          (rv['r'] == 'use' and (_op_place(rv['o']) or [None])[0] == buf)
+                if touches and not (bi != c.bb and g.dominates(c.bb, bi)):
+                    uses_ok = False
+        for c2 in g.calls:
+            if c2 is not c and any((_op_place(a) or [None])[0] == buf for a in c2.args) and not (c2.bb != c.bb and g.dominates(c.bb, c2.bb)):
+                uses_ok = False
+        if not uses_ok:
+            continue
+        recv = _peel_unwrap(sl.operand(g, c.args[0]))
+        for _ in range(3):
+            # a buffering wrapper reads the same bytes: `BufReader::new(File::open(P)?)`
+            if isinstance(recv, tuple) and len(recv) == 4 and recv[0] == 'call' and recv[1] in BUF_WRAPPERS and recv[2]:
+                recv = _peel_unwrap(recv[2][BUF_WRAPPERS[recv[1]]])
+        if not (isinstance(recv, tuple) and len(recv) == 4 and recv[0] == 'call'):
+            continue
+        if recv[1] in FILE_OPEN and len(recv[2]) == 1:
+            opened = recv[2][0]
+        elif recv[1] == 'std::fs::OpenOptions::open' and len(recv[2]) == 2 and open_mode(recv[2][0]) == 'read':
+            opened = recv[2][1]
+        else:
+            continue
+        if not _ok_on_success(prog, g, c, None):
+            continue
+        out[(g.path, ctor.bb)] = ('unwrap', ('call', BUF_READERS[c.decl], (opened,), (g.path, c.bb)))
+    return out
+
+
+def _returned_rb(prog, sl, g):
+    rv = sl.local(g, 0)
+    bufs = read_buffers(prog, sl, g)
+    if not bufs:
+        return rv
+    for site, val in bufs.items():
+        rv = _replace_node(rv, lambda x: len(x) == 4 and x[0] == 'call' and x[1] in BUF_CTORS and x[3] == site, val)[0]
+    return rv
+
+
+def inline_deep_rb(prog, sl, v, depth=4, stack=()):
+    """sl.inline_deep with read buffers (see _READ_BUFFER_DOC) holding the text of their file"""
+    if not isinstance(v, tuple) or not v or depth < 0:
+        return v
+    if v[0] == 'call' and v[1] in prog.fns:
+        g = prog.fns[v[1]]
+        if g.path not in stack and len(stack) <= 6 and g.kind != 'Closure':
+            m = {(g.path, i): a for i, a in enumerate(v[2]) if i < g.argc}
+            iv = _subst_value(_returned_rb(prog, sl, g), m, sl)
+            if iv is not None and iv != v:
+                return inline_deep_rb(prog, sl, iv, depth - 1, stack + (g.path,))
+    if v[0] in LEAF:
+        return v
+    out = tuple(inline_deep_rb(prog, sl, x, depth, stack) if isinstance(x, tuple) else x for x in v)
+    if out == v:
+        return v
+    if out[0] == 'unwrap':
+        return sl.mk_unwrap(out[1], 1)
+    if out[0] == 'field':
+        return sl._field(out[1], out[2])
+    if out[0] == 'variant':
+        return sl._variant(out[1], out[2])
+    return out
+
+
+def _tuple_elems(ty):
+    if isinstance(ty, str) and ty.startswith('(') and ty.endswith(')'):
+        return _type_args('T<' + ty[1:-1] + '>')[1]
+    return None
+
+
+def value_type(prog, v):
+    """printed type of the value v where it enters the function that uses it: the result type of the outermost call that
+    produced it, taken through the projections between that call and v — success payload (`?` / unwrap), tuple component
+    (`let (path, value) = helper(..)?`), variant payload — and Ok-preserving combinators; None when not followed"""
+    projs = []
+    ty = None
+    for _ in range(24):
+        if not (isinstance(v, tuple) and v):
+            return None
+        if v[0] == 'unwrap' and len(v) == 2:
+            projs.append(('ok', None))
+            v = v[1]
+        elif v[0] == 'updated':
+            v = v[1]
+        elif v[0] == 'field' and len(v) == 3:
+            projs.append(('field', v[2]))
+            v = v[1]
+        elif v[0] == 'variant' and len(v) == 3:
+            projs.append(('variant', v[2]))
+            v = v[1]
+        elif v[0] == 'call' and len(v) == 4:
+            if v[1] in OK_PRESERVING and v[2]:
+                v = v[2][0]
+                continue
+            if isinstance(v[3], tuple) and len(v[3]) == 2:
+                fn = prog.fns.get(v[3][0])
+                c = fn.call_at(v[3][1]) if fn is not None else None
+                ty = c.dty if c is not None else None
+            break
+        else:
+            return None
+    if not ty:
+        return None
+    variant = None
+    for kind, name in reversed(projs):
+        head, args = _type_args(ty)
+        if kind == 'ok':
+            if head in STD_ENUMS and args:
+                ty = args[0]
+            variant = None
+        elif kind == 'variant':
+            if head not in STD_ENUMS:
+                return None
+            variant = name
+        else:
+            if variant is not None:
+                if name != '0' or not args:
+                    return None
+                ty = args[1] if variant == 'Err' and len(args) > 1 else args[0]
+                variant = None
+                continue
+            elems = _tuple_elems(ty)
+            if elems is not None:
+                if not name.isdigit() or int(name) >= len(elems):
+                    return None
+                ty = elems[int(name)]
+                continue
+            # a named field of a private carrier struct (`struct Loaded { path, content }`): only for a struct that is not
+            # generic (no field typed by a parameter), where the declared field type is the type
+            try:
+                adt = prog.adt(ty) if '<' not in ty else None
+            except Exception:
+                adt = None
+            if not adt or adt.get('kind') != 'struct' or len(adt.get('variants', ())) != 1:
+                return None
+            fields = adt['variants'][0]['fields']
+            if any((f.get('head') or '?').startswith('?') or '<' in f['ty'] and '?' in f.get('head', '') for f in fields):
+                return None
+            hit = [f for f in fields if f['name'] == name]
+            if len(hit) != 1:
+                return None
+            ty = hit[0]['ty']
+    return ok_payload_type(ty)
+
+
 def toml_source(prog, sl, base):
     """(path value P, type the value is read as | None) when the success payload of `base` is, in normal form, the parsed
     text of file P and nothing else; None otherwise"""
     if not isinstance(base, tuple) or not base:
         return None
-    v = _peel_unwrap(norm(sl, ('unwrap', sl.inline_deep(base))))
+    v = norm(sl, ('unwrap', inline_deep_rb(prog, sl, base)))
+    for _ in range(3):
+        # applying a closure (`read(p).and_then(|text| parse(&text))`) can expose further private helpers: inline again
+        v2 = norm(sl, inline_deep_rb(prog, sl, v))
+        if v2 == v:
+            break
+        v = v2
+    v = _peel_unwrap(v)
     if not (isinstance(v, tuple) and len(v) == 4 and v[0] == 'call' and v[1] in TOML_PARSE and len(v[2]) == 1):
         return None
-    src = _peel_unwrap(v[2][0])
-    if not (isinstance(src, tuple) and len(src) == 4 and src[0] == 'call' and src[1] in FILE_READ_TEXT and len(src[2]) == 1):
+    pth = text_of_file(v[2][0])
+    if pth is None:
         return None
     oc = _outer_site_call(prog, base)
-    ty = ok_payload_type(oc.dty) if oc is not None and oc.dty else None
-    return src[2][0], ty
+    ty = ok_payload_type(oc.dty) if oc is not None and oc.dty else value_type(prog, base)
+    return pth, ty
 
 
 def lossless_type(ty):
